@@ -195,6 +195,7 @@ func (g *Gen) bindFail(c *Clause, err error) {
 }
 
 func (g *Gen) block(b *ssa.BasicBlock) {
+	g.syncDefBlk()
 	g.curBlock = b
 	// reach + entry state
 	var r []string
@@ -800,9 +801,9 @@ func (g *Gen) unop(x *ssa.UnOp) {
 			n := "fv!" + sanitize(fv.Name())
 			if _, ok := g.decl[n]; !ok {
 				g.declare(n, g.sortOf(x.Type()))
-				g.assumeRaw(g.typeInv(n, x.Type()))
+				g.preDefs = append(g.preDefs, "(assert "+g.typeInv(n, x.Type())+")")
 				if isRefType(x.Type()) {
-					g.assumeRaw(fmt.Sprintf("(or (= %s 0) (select $alloc!0 %s))", n, n))
+					g.preDefs = append(g.preDefs, fmt.Sprintf("(assert (or (= %s 0) (select $alloc!0 %s)))", n, n))
 				}
 			}
 			g.vals[x] = Term{S: n, Sort: g.sortOf(x.Type()), T: x.Type()}
@@ -964,11 +965,11 @@ func (g *Gen) declFun(name, sig string) {
 		g.dord = append(g.dord, name)
 		switch name {
 		case "bitor":
-			g.defs = append(g.defs, "(assert (forall ((a Int) (b Int)) (! (=> (and (>= a 0) (>= b 0)) (and (>= (bitor a b) a) (>= (bitor a b) b) (<= (bitor a b) (+ a b)))) :pattern ((bitor a b)))))")
+			g.preDefs = append(g.preDefs, "(assert (forall ((a Int) (b Int)) (! (=> (and (>= a 0) (>= b 0)) (and (>= (bitor a b) a) (>= (bitor a b) b) (<= (bitor a b) (+ a b)))) :pattern ((bitor a b)))))")
 			// disjoint bit ranges: a is a multiple of 2^k and b < 2^k  =>  a | b == a + b   (k = 8, 16)
-			g.defs = append(g.defs, "(assert (forall ((a Int) (b Int)) (! (=> (and (>= a 0) (>= b 0) (or (and (< b 256) (= (mod a 256) 0)) (and (< b 65536) (= (mod a 65536) 0)))) (= (bitor a b) (+ a b))) :pattern ((bitor a b)))))")
+			g.preDefs = append(g.preDefs, "(assert (forall ((a Int) (b Int)) (! (=> (and (>= a 0) (>= b 0) (or (and (< b 256) (= (mod a 256) 0)) (and (< b 65536) (= (mod a 65536) 0)))) (= (bitor a b) (+ a b))) :pattern ((bitor a b)))))")
 		case "bitand":
-			g.defs = append(g.defs, "(assert (forall ((a Int) (b Int)) (! (=> (and (>= a 0) (>= b 0)) (and (>= (bitand a b) 0) (<= (bitand a b) a) (<= (bitand a b) b))) :pattern ((bitand a b)))))")
+			g.preDefs = append(g.preDefs, "(assert (forall ((a Int) (b Int)) (! (=> (and (>= a 0) (>= b 0)) (and (>= (bitand a b) 0) (<= (bitand a b) a) (<= (bitand a b) b))) :pattern ((bitand a b)))))")
 		}
 	}
 }
@@ -1215,7 +1216,7 @@ func (g *Gen) declBox(srt string) {
 	}
 	g.declFun("box!"+srt, "(Int "+srt+") Int")
 	g.declFun("unbox!"+srt, "(Int) "+srt)
-	g.defs = append(g.defs, fmt.Sprintf("(assert (forall ((t Int) (v %s)) (! (and (= (tagof (box!%s t v)) t) (= (unbox!%s (box!%s t v)) v) (not (= (box!%s t v) 0))) :pattern ((box!%s t v)))))", srt, srt, srt, srt, srt, srt))
+	g.preDefs = append(g.preDefs, fmt.Sprintf("(assert (forall ((t Int) (v %s)) (! (and (= (tagof (box!%s t v)) t) (= (unbox!%s (box!%s t v)) v) (not (= (box!%s t v) 0))) :pattern ((box!%s t v)))))", srt, srt, srt, srt, srt, srt))
 }
 
 func (g *Gen) typeAssert(x *ssa.TypeAssert) {
